@@ -1934,7 +1934,10 @@ func (sgi *ShardGroupInfo) unmarshal(pb *internal.ShardGroupInfo) {
 	sgi.DeletedAt = UnmarshalTime(pb.GetDeletedAt())
 
 	if pb != nil && pb.TruncatedAt != nil {
-		sgi.TruncatedAt = UnmarshalTime(pb.GetTruncatedAt())
+		// The field is only written for a truncated group. UnmarshalTime maps 0 to
+		// the zero time, which would turn a group truncated at the Unix epoch back
+		// into a group that is not truncated.
+		sgi.TruncatedAt = time.Unix(0, pb.GetTruncatedAt()).UTC()
 	}
 
 	if len(pb.GetShards()) > 0 {
